@@ -67,6 +67,17 @@ class Path:
         return f"<path {self.kind} {self.value!r} pc={self.pc}>"
 
 
+class _TimedOut:
+    """pseudo-path: the function is out of reach within the budget (UNDECIDED, never a violation)"""
+    kind = "unsupported"
+    pc = defs = trace = tags = ()
+    heap = {}
+    primordial = None
+
+    def __init__(self, msg):
+        self.value = msg
+
+
 class Env:
     def __init__(self, module, parent=None, vars=None):
         self.module = module
@@ -114,10 +125,16 @@ def litkey_facts(used=None):
 
 def explore(repo, run, tag="r", config=None, limit=4000):
     """enumerate all paths of `run(ex)`; returns list[Path]"""
+    import time as _t
     paths = []
     prefix = []
     count = 0
+    t0 = _t.time()
+    budget = float(__import__("os").environ.get("PYVC_EXPLORE_BUDGET_S", "240"))
     while prefix is not None:
+        if _t.time() - t0 > budget:
+            paths.append(_TimedOut(f"exploration time budget ({budget:.0f}s) exhausted"))
+            break
         orc = Oracle(prefix)
         from .interp import Exec
         ex = Exec(repo, orc, tag, config or {})
